@@ -66,7 +66,8 @@ func NewChannel(
 		PromptPattern:     getPromptPattern(),
 		ReturnChar:        []byte(DefaultReturnChar),
 
-		done: make(chan struct{}),
+		done:   make(chan struct{}),
+		exited: make(chan struct{}),
 
 		Q:    util.NewQueue(),
 		Errs: make(chan error),
@@ -106,11 +107,15 @@ type Channel struct {
 	PromptPattern     *regexp.Regexp
 	ReturnChar        []byte
 
-	done chan struct{}
+	// done is closed (once) by Close to tell the read loop to stop; exited is closed (once) by
+	// the read loop when it returns.
+	done       chan struct{}
+	doneOnce   sync.Once
+	exited     chan struct{}
+	exitedOnce sync.Once
 
-	Q              *util.Queue
-	Errs           chan error
-	readLoopExited bool
+	Q    *util.Queue
+	Errs chan error
 
 	ChannelLog io.Writer
 }
@@ -183,22 +188,15 @@ func (c *Channel) Open() (reterr error) {
 func (c *Channel) Close() error {
 	c.l.Info("channel closing...")
 
-	close(c.Errs)
-
-	ch := make(chan struct{})
-
-	if !c.readLoopExited {
-		go func() {
-			defer close(ch)
-
-			c.done <- struct{}{}
-		}()
-	} else {
-		close(ch)
-	}
+	// closing (rather than sending on) done means nobody has to be receiving: the read loop may be
+	// blocked in a transport read, parked handing over an error, or already gone. Errs is left
+	// open -- the read loop may still be about to send on it -- and safe to call more than once.
+	c.doneOnce.Do(func() {
+		close(c.done)
+	})
 
 	select {
-	case <-ch:
+	case <-c.exited:
 		c.l.Debug("closing underlying transport...")
 
 		return c.t.Close(false)
